@@ -5,7 +5,7 @@ import "time"
 func init() {
 	registry = append(registry, property{id: "C18", parts: []part{
 		{name: "testgen", pkg: "./c18", run: "^TestTestGen$",
-			shards: [2]int{16, 16}, checks: [2]int{250, 4000}, timeout: [2]time.Duration{15 * min, 40 * min},
+			shards: [2]int{16, 16}, checks: [2]int{250, 4000}, timeout: [2]time.Duration{15 * min, 80 * min},
 			bins: []string{"test_gen"}},
 	}})
 }
